@@ -207,10 +207,14 @@ def main_run(modname: str, pid: str, tier: str, seed: int, jobs: int) -> int:
             total.add(_run(s))
     else:
         ctx = mp.get_context('fork')
-        with ctx.Pool(min(jobs, len(shards)), initializer=_init_worker,
-                      initargs=(modname, tier, seed)) as pool:
+        pool = ctx.Pool(min(jobs, len(shards)), initializer=_init_worker, initargs=(modname, tier, seed))
+        try:
             for r in pool.imap_unordered(_run, shards, chunksize=1):
                 total.add(r)
+            pool.close()        # let workers exit normally so that their scratch directories are removed
+            pool.join()
+        finally:
+            pool.terminate()
     check.finalize(total)
 
     if total.errors:
